@@ -38,7 +38,9 @@ Catalogue == <<
   U("J", Dm(2,-2,1,0), Z4, ""), U("W", Dm(2,-3,1,0), Z4, ""), U("W m-2", Dm(0,-3,1,0), Z4, ""), U("W/m2", Dm(0,-3,1,0), Z4, ""),
   U("", Dm(0,0,0,0), Z4, ""), U("1", Dm(0,0,0,0), Z4, ""), U("%", Dm(0,0,0,0), P10(-2), ""),
   U("percent", Dm(0,0,0,0), P10(-2), ""), U("radian", Dm(0,0,0,0), Z4, ""),
-  U("degree", Dm(0,0,0,0), <<-2, -2, -1, 1>>, ""), U("degrees_north", Dm(0,0,0,0), <<-2, -2, -1, 1>>, "")
+  U("degree", Dm(0,0,0,0), <<-2, -2, -1, 1>>, ""), U("degrees_north", Dm(0,0,0,0), <<-2, -2, -1, 1>>, ""),
+  U("J/s", Dm(2,-3,1,0), Z4, ""), U("mbar", Dm(-1,-2,1,0), P10(2), ""), U("L/m2", Dm(1,0,0,0), P10(-3), ""),
+  U("N/m2", Dm(-1,-2,1,0), Z4, ""), U("kg/m3", Dm(-3,0,1,0), Z4, ""), U("g/L", Dm(-3,0,1,0), Z4, "")
 >>
 N == Len(Catalogue)
 
@@ -72,8 +74,8 @@ ASSUME \A i \in 1..N, j \in 1..N, k \in 1..N :
 
 Pairs == {[what |-> "pair", a |-> i, b |-> j, an |-> Catalogue[i].name, bn |-> Catalogue[j].name] : i \in 1..N, j \in 1..N}
 (* query sequences: every order of a few unit pairs, answers must not depend on the order *)
-SeqUnits == {1, 4, 7, 18, 20, 44, 46}      \* m, km, s, m/s, km/h, "", %
+SeqUnits == {1, 4, 6, 18, 20, 40, 44, 46, 50, 52}      \* m, km, mm, m/s, km/h, W, "", %, J/s, L/m2
 QPairs == {<<i, j>> : i \in SeqUnits, j \in SeqUnits}
 Seqs == {[what |-> "seq", qs |-> <<p, q, r, <<q[2], q[1]>>, p>>, names |-> [k \in 1..N |-> Catalogue[k].name]] :
-           p \in QPairs, q \in QPairs, r \in {<<1, 4>>, <<7, 1>>, <<18, 20>>, <<44, 46>>}}
+           p \in QPairs, q \in QPairs, r \in {<<1, 4>>, <<6, 52>>, <<18, 20>>, <<44, 46>>, <<40, 50>>}}
 =============================================================================
